@@ -176,6 +176,11 @@ class UnitDefinition(PintParsedStatement, definitions.UnitDefinition):
                         return common.DefinitionSyntaxError(
                             f"Unit definition ('{name}') has no value for the modifier '{part[0].strip()}'"
                         )
+                keys = [key.strip() for key, _ in parts]
+                if len(set(keys)) != len(keys):
+                    return common.DefinitionSyntaxError(
+                        f"Unit definition ('{name}') gives a modifier more than once"
+                    )
                 modifiers = {key.strip(): config.to_number(value) for key, value in parts}
             except definitions.NotNumeric as ex:
                 return common.DefinitionSyntaxError(
